@@ -8,3 +8,7 @@ package verifhook
 // Yield marks a named point at which a verification harness may pause or
 // observe the calling goroutine. It does nothing in regular builds.
 func Yield(string) {}
+
+// Fault marks a named point at which a verification harness may inject a
+// failure. It returns nil in regular builds.
+func Fault(string) error { return nil }
